@@ -525,6 +525,7 @@ func init() {
 			if r.Chance(1, 4) {
 				sp.LockHead = prng.Pick(r, c06Heads)
 			}
+			sp.ZeroSats = r.Chance(1, 6) // a spent output worth 0 on an input that records another amount
 			cs := c06Make(r, sp)
 			cs.Desc = fmt.Sprintf("%s m=%d n=%d sep=%d/%s slots=%+v keyenc=%v flags=%#x locktail=%x lockhead=%x", sp.Kind, sp.M, sp.N, sp.SepPos, sp.SepKind, sp.Slots, sp.KeyEnc, sp.Flags, sp.LockTail, sp.LockHead)
 			sigJudge(c, cs)
